@@ -93,6 +93,12 @@ def appends(fn, P, L, creation_block=None):
         ln = last(t['fn']['name'])
         elems = [norm(P.operand(a, b, n)) for a in t['args'][1:]]
         if ln in APPEND:
+            el0 = strip(elems[0]) if elems else None
+            bt = be_call_type(el0) if el0 is not None else None
+            if bt and bt[0] == 'to' and APPEND[ln] == 'bytes' and el0.args:
+                arr = E('aggr', 'array', [be_byte(el0.args[0], bt[1], kk) for kk in range(bt[2])], c={'akind': 'array'})
+                out.append(Append(b, 'bytesplit', arr, 'push', b in loops))
+                continue
             out.append(Append(b, APPEND[ln], elems[0] if elems else None, t['fn']['name'], b in loops))
         else:
             out.append(Append(b, 'other:' + ln, elems[0] if elems else None, t['fn']['name'], b in loops))
@@ -117,6 +123,28 @@ def sequence_for(fn, P, op, b, i):
     use_dom = dom.get(b, set())
     seq = [a for a in seq if a.block in use_dom or a.in_loop]
     return L, creation, seq
+
+
+INTW = {'u8': 1, 'u16': 2, 'u32': 4, 'u64': 8, 'u128': 16, 'usize': 8}
+
+
+def be_call_type(e):
+    """('to'|'from', type, width) for a call of uN::to_be_bytes / uN::from_be_bytes"""
+    import re as _re
+    if e.k != 'call' or last(e.name or '') not in ('to_be_bytes', 'from_be_bytes'):
+        return None
+    m = _re.search(r'<impl (u16|u32|u64|u128|usize)>', e.name or '')
+    if not m:
+        return None
+    return ('to' if last(e.name) == 'to_be_bytes' else 'from', m.group(1), INTW[m.group(1)])
+
+
+def be_byte(x, ty, k):
+    """byte k (0 = most significant) of the big-endian encoding of x, in the shift form the hand-written code uses"""
+    n = INTW[ty]
+    sh = 8 * (n - 1 - k)
+    inner = x if sh == 0 else E('binop', 'Shr', [x, E('const', c={'k': 'int', 'bits': str(sh), 'ty': 'i32', 'size': 4}, ty='i32')], ty=ty)
+    return E('cast', 'IntToInt', [inner], ty='u8', c={'from_ty': ty})
 
 
 _ITEM_VOCAB = None
@@ -167,6 +195,9 @@ class Canon:
         if not (cr.k == 'call' and last(cr.name) in ('new', 'with_capacity')):
             out.append('INIT:' + self.c(cr))
         for a in seq:
+            if a.kind == 'bytesplit' and not a.in_loop:
+                out.extend(self.c(x) for x in a.elem.args)     # the bytes of x.to_be_bytes(), one element each
+                continue
             el = self.c(a.elem) if a.elem is not None else '?'
             if a.in_loop:
                 el = 'LOOP(%s:%s)' % (a.kind, el)
@@ -192,6 +223,11 @@ class Canon:
         from .prov import const_int, const_item
         e = strip(e)
         k = e.k
+        if k == 'cast' and (e.ty or '').strip() == 'u8' and e.args:
+            in_ = strip(e.args[0])
+            if in_.k == 'binop' and in_.name == 'BitAnd' and len(in_.args) == 2 and const_int(in_.args[1]) == 255:
+                # (x & 0xff) as u8 == x as u8
+                return self.c(E('cast', e.name, [in_.args[0]], ty='u8', c=e.c))
         if k in ('field', 'binop', 'cast'):
             v = const_int(e)
             if v is not None and k != 'cast':
@@ -262,6 +298,19 @@ class Canon:
                     a0 = strip(a0.args[0])
                 if a0.k == 'aggr' and a0.name in ('Option::Some', 'Result::Ok') and a0.args:
                     return self.c(a0.args[0])
+            bt_ = be_call_type(e)
+            if bt_ and bt_[0] == 'from' and len(e.args) == 1 and strip(e.args[0]).k == 'aggr' and strip(e.args[0]).name == 'array' and len(strip(e.args[0]).args) == bt_[2]:
+                # uN::from_be_bytes([b0, b1, ..]) == uN::from(b0) << 8(n-1) | ... | uN::from(b_{n-1})
+                parts = []
+                n_ = bt_[2]
+                for i_, b_ in enumerate(strip(e.args[0]).args):
+                    f_ = 'from(%s)' % self.c(b_)
+                    sh_ = 8 * (n_ - 1 - i_)
+                    parts.append('Shl(%s, %d)' % (f_, sh_) if sh_ else f_)
+                r_ = parts[0]
+                for p_ in parts[1:]:
+                    r_ = 'BitOr(%s, %s)' % (r_, p_)
+                return r_
             if ln == 'concat' and len(e.args) == 1 and strip(e.args[0]).k == 'aggr' and strip(e.args[0]).name == 'array':
                 # [a, b, c].concat()  ==  a builder that appends a, b, c
                 return '[' + ', '.join(self.c(a) for a in strip(e.args[0]).args) + ']'
@@ -309,6 +358,13 @@ class Canon:
         if k == 'cast':
             return '(%s as %s)' % (self.c(e.args[0]), e.ty)
         if k == 'index':
+            from .prov import const_int as _ci
+            base = strip(e.args[0])
+            bt = be_call_type(base)
+            if bt and bt[0] == 'to' and base.args:
+                kk = _ci(e.args[1]) if len(e.args) > 1 else (int(e.name) if (e.name or '').lstrip('-').isdigit() else None)
+                if kk is not None and 0 <= kk < bt[2]:
+                    return self.c(be_byte(base.args[0], bt[1], kk))      # x.to_be_bytes()[k] == (x >> 8(n-1-k)) as u8
             return '%s[%s]' % (self.c(e.args[0]), self.c(e.args[1]) if len(e.args) > 1 else e.name)
         if k == 'phi':
             return 'phi(%s)' % ' | '.join(sorted(self.c(a) for a in e.args))
